@@ -29,14 +29,26 @@ Proof.
   simpl. destruct isb; auto. f_equal. induction ks as [|[k|] ks IH]; simpl; auto; now rewrite IH.
 Qed.
 
-Fixpoint lwf (t : atree) : Prop :=
+(* [lwf f t]: every leaf holds a value, the MustBeHashed flag b of every node with a value v
+   satisfies f v b (f = fl_any: no constraint; f = fl_ver v1: the flag the version demands), every
+   branch has its 16 child slots and a leaf has none *)
+Definition fl_any : value -> bool -> Prop := fun _ _ => True.
+Definition fl_ver (v1 : bool) : value -> bool -> Prop := fun v b => b = must_hash v1 v.
+Fixpoint lwf (f : value -> bool -> Prop) (t : atree) : Prop :=
   match t with
-  | AN _ _ sv _ _ isb ks => (isb = false -> sv <> None) /\ oall lwf ks
+  | AN _ _ sv mbh _ isb ks =>
+    (isb = false -> sv <> None) /\ (forall v, sv = Some v -> f v mbh) /\ length ks = (if isb then 16 else 0)
+    /\ oall (lwf f) ks
   end.
-Lemma lwf_unfold a pk sv mbh gn isb ks :
-  lwf (AN a pk sv mbh gn isb ks) <-> (isb = false -> sv <> None) /\ forall k, In (Some k) ks -> lwf k.
+Lemma lwf_unfold f a pk sv mbh gn isb ks :
+  lwf f (AN a pk sv mbh gn isb ks) <->
+  (isb = false -> sv <> None) /\ (forall v, sv = Some v -> f v mbh) /\ length ks = (if isb then 16 else 0)
+  /\ forall k, In (Some k) ks -> lwf f k.
 Proof. simpl. now rewrite oall_in. Qed.
-Definition lwf_o (o : option atree) : Prop := match o with Some t => lwf t | None => True end.
+Definition lwf_o (f : value -> bool -> Prop) (o : option atree) : Prop := match o with Some t => lwf f t | None => True end.
+
+Lemma lwf_kid f t k : lwf f t -> In (Some k) (akids t) -> lwf f k.
+Proof. destruct t. rewrite lwf_unfold. simpl. intros (_ & _ & _ & Hk); auto. Qed.
 
 (* ---------- children lists ---------- *)
 Lemma map_ero_set_nth i v l : map ero (set_nth i v l) = set_child (map ero l) i (ero v).
